@@ -62,7 +62,7 @@ static void run_case(long idx)
     T.d = vr_chance(&r, 1, 2) ? (vr_chance(&r, 1, 2) ? 6 : 8) : vr_chance(&r, 1, 8) ? vr_u(&r, 300) : vr_u(&r, 20); T.k = vr_chance(&r, 1, 6) ? vr_u(&r, 10) : T.d + vr_u(&r, 2000); if (vr_chance(&r, 1, 10)) T.k = 1u << 20;
     T.f = vr_chance(&r, 1, 8) ? (vr_chance(&r, 1, 2) ? vr_u(&r, 40) : vr_u(&r, 300)) : 10 + vr_u(&r, 11); T.accel = vr_chance(&r, 1, 8) ? vr_u(&r, 20) : vr_u(&r, 11); T.steps = vr_chance(&r, 1, 2) ? 0 : 1 + vr_u(&r, 6);
     T.nbThreads = (unsigned)v_opt_long("threads", -1) != (unsigned)-1 ? (unsigned)v_opt_long("threads", 1) : (vr_chance(&r, 1, 3) ? vr_u(&r, 5) : vr_u(&r, 2));
-    T.split = vr_chance(&r, 1, 2) ? 0.0 : vr_chance(&r, 1, 4) ? 1.0 : 0.1 + 0.9 * (double)vr_u(&r, 100) / 100.0; T.shrink = vr_u(&r, 3) == 0; T.level = vr_chance(&r, 1, 8) ? (int)vr_range(&r, -300, 40) : (int)vr_range(&r, 0, 6); T.dictID = vr_chance(&r, 1, 3) ? 32768 + vr_u(&r, 1u << 20) : 0; T.selectivity = vr_u(&r, 12);
+    T.split = vr_chance(&r, 1, 2) ? 0.0 : vr_chance(&r, 1, 4) ? 1.0 : 0.1 + 0.9 * (double)vr_u(&r, 100) / 100.0; T.shrink = vr_u(&r, 3) == 0; T.level = vr_chance(&r, 1, 8) ? (int)vr_range(&r, -300, 40) : (int)vr_range(&r, 0, 6); T.dictID = vr_chance(&r, 1, 3) ? 32768 + vr_u(&r, 1u << 20) : 0; if (vr_chance(&r, 1, 6)) { static const unsigned ids[] = { 0x80000000u, 0x80000001u, 0xFFFFFFFFu, 0x7FFFFFFFu, 1u, 0xC0000000u }; T.dictID = ids[vr_u(&r, 6)]; if (vr_chance(&r, 1, 3)) T.dictID = 0x80000000u + vr_u(&r, 1u << 30); }      /* forced IDs over the whole 32-bit range */ T.selectivity = vr_u(&r, 12);
     if ((T.algo == A_OPT_COVER || T.algo == A_OPT_FASTCOVER) && (total > 400000 || !V.thorough)) T.steps = 1 + vr_u(&r, 3);
     size_t cap; switch (vr_u(&r, 6)) { case 0: cap = vr_u(&r, 300); break; case 1: cap = 256 + vr_u(&r, 1000); break; default: cap = 1000 + vr_u64(&r, 110000); }
     size_t const contentLen = (T.algo == A_FINALIZE || T.algo == A_ADDENTROPY) ? (vr_chance(&r, 1, 5) ? vr_u(&r, 9) : vr_u64(&r, V_MIN(cap, (size_t)60000) + 1)) : 0;
